@@ -49,6 +49,7 @@ package confutil
 //@ nilsafe
 //@ requires targetType != nil
 //@ loop 0 invariant forall(k, 0, len(tokens), tokens[k] != nil) && imp(calls(resolver) > 0, result_of(resolver, 1) == nil)
+//@ at call strings.ReplaceAll assert [each-variable-is-substituted-in-the-result-so-far] arg(a0) == res && arg(a1) == t.string && arg(a2) == resolved
 //@ ensures [no-placeholder-is-reported] imp(result_of(findTags, 1) == nil && len(result_of(findTags, 0)) == 0, result1 == ErrNoTagsFound)
 //@ ensures [resolver-failure-is-an-error] imp(calls(resolver) > 0 && result_of(resolver, 1) != nil, result1 == result_of(resolver, 1))
 
